@@ -53,6 +53,13 @@ def check_C17(run):
         r["shard"] = "../out-BUF/" + r["shard"]
     rejected = rejected + rejected2
     total, states = total + total2, states + states2
+    # the same primitives through codecs built from a schema for a struct: every (schema primitive, Go width) pair
+    out3, meta3 = run.drive("C17W")
+    total3, rejected3, states3, _ = V.judge(run.scratch, "Trace_Codec", out3)
+    for r in rejected3:
+        r["shard"] = "../out-C17W/" + r["shard"]
+    rejected = rejected + rejected3
+    total, states = total + total3, states + states3
     cov = std_cov(run, meta, total, states,
                   "one event per (codec, value) write+read-back or (codec, byte string) read; keys are codec|class where class is the varint length or boundary family; "
                   "distinct_nontrivial counts distinct keys",
